@@ -1,5 +1,5 @@
 \* exhaustive: 3 L1 blocks, 3 events, 2 reorgs, 2 failures, chunk size in {1,2,10}
-\* measured: 10 827 828 distinct / 40 808 749 generated states (13 min on 6 loaded workers)
+\* measured: 10 827 828 distinct / 40 808 749 generated states (5 min on 8 workers)
 CONSTANTS
   MaxBlocks = 3
   MaxEvents = 3
